@@ -129,6 +129,10 @@ def mkcache(kind):
 
 
 MAXK = 80
+import json as _json
+import os as _os
+with open(_os.path.join(_os.path.dirname(_os.path.abspath(__file__)), "c12_known_windows.json")) as _f:
+    KNOWN_WINDOWS = {k: [[a, b] for a, b, sig in v if sig == "KeyError 'attributes'"] for k, v in _json.load(_f).items()}
 
 
 def ob_nested(k1: int, k2: int) -> bool:
@@ -162,8 +166,11 @@ def ob_nested(k1: int, k2: int) -> bool:
         try:
             a = CContext().evaluate(qa)
         except KeyError as ex:
-            if finding_active("C12-progress-metadata-overwrites-ready-entry") and str(ex) == "'attributes'":
-                return True      # listed known finding (signature: a consumer is served a ready entry whose metadata was replaced)
+            # listed known finding: exactly the windows enumerated on the pinned tree (harness/c12_known_windows.json) with exactly this
+            # signature; the same crash in any OTHER window, or any other failure, is a violation
+            if finding_active("C12-progress-metadata-overwrites-ready-entry") and str(ex) == "'attributes'" \
+                    and [lvl1.fired_at, lvl2.fired_at] in KNOWN_WINDOWS.get("%s/%d/%d" % (part("cache"), part("pair"), part("third")), []):
+                return True
             raise
         if fs is not None:
             fs.hook = None
